@@ -1,4 +1,4 @@
-From CV Require Import VF.Run.
+From CV Require Import VF.MiniCRun.
 Require Extraction.
 Require Import ExtrOcamlBasic.
 Extraction "model.ml" run.
